@@ -4,6 +4,7 @@
 import DuckModel.Wire
 import DuckModel.Parser
 import DuckModel.Spec.Render
+import DuckModel.Scripted
 
 namespace Duck.Driver
 open Duck Duck.Wire
@@ -56,6 +57,26 @@ def handle (toks : List String) : String :=
       let dom := its.all fun x => Spec.instrOKb x.2.1 && Spec.choicesOKb x.1
       encStr text ++ " " ++ (if dom then "DOM" else "NODOM") ++ " " ++ encParse (parseText text)
     | none => bad
+  | ["run", text, names, queue, haltAt, vars, fuel] =>
+    match decStr text, decList names, decQueue queue, decVars vars, fuel.toNat? with
+    | some text, some names, some queue, some vars, some fuel =>
+      let st : ScriptedSt := { queue := queue, haltAt := haltAt.toNat? }
+      match runScript (scriptedSem names) scriptedHalt fuel text vars st with
+      | .error e => "PARSEERR " ++ encPErr e.kind ++ " " ++ encMeta e.mi
+      | .ok (rs, e) =>
+        let log := ";".intercalate (rs.st.log.map fun l => encStr l.name ++ "@" ++ toString l.line ++ encList l.args)
+        let logs := " | LOG " ++ log
+        match e with
+        | .fail msg mi =>
+          -- runner-generated texts are not compared (only that the run failed, and where);
+          -- messages produced by commands ("crash#…") must arrive unchanged
+          let m := if "crash#".toList.isPrefixOf msg then encStr msg else "runner-msg"
+          "fail " ++ m ++ " " ++ encMeta mi ++ logs
+        | .exitCalled => "ok | VARS " ++ encVars rs.vars ++ logs
+        | .reachedEnd => "ok | VARS " ++ encVars rs.vars ++ logs
+        | .halted => "ok | VARS " ++ encVars rs.vars ++ logs
+        | .outOfFuel => "fuel" ++ logs
+    | _, _, _, _, _ => bad
   | ["ws", n] =>
     match n.toNat? with
     | some k => if isWs (Char.ofNat k) then "1" else "0"
